@@ -36,8 +36,8 @@ from vlib import log
 PROPS = [("Moyo.Props.C19", "Moyo/Props/C19.lean")]
 TRANSLATOR = os.path.join(vlib.VERIF, "tools", "translate_c19.py")
 PYCHECK = os.path.join(vlib.VERIF, "pycheck", "c19_py.py")
-PYMOD = os.path.join(vlib.CACHE, "pymod")
-TARGET_PY = os.path.join(vlib.CACHE, "target-py")
+PYMOD = os.path.join(os.path.dirname(vlib.WORK) if os.environ.get("VERIF_REPO") else vlib.CACHE, "pymod")
+TARGET_PY = os.path.join(os.path.dirname(vlib.WORK) if os.environ.get("VERIF_REPO") else vlib.CACHE, "target-py")
 
 TRUSTED = vlib.TRUSTED_COMMON + [
     "tools/translate_c19.py (Rust declarations -> schema); validated on every run: its field lists must equal the keys of the "
